@@ -378,6 +378,9 @@ def search(ctx, deep=False):
     ev3, v3 = strata_search(ctx, max(36, n // 2))
     ev4, v4 = boundary_search(ctx, max(28, n // 3))
     ev3, v3 = ev3 + ev4, v3 + v4
+    import threadcfg
+    ev5, v5 = threadcfg.api_thread_sweep(ctx, ("vario", "vario-dir", "vario-axis"), ctx.scale(5, 40))
+    ev3, v3 = ev3 + ev5, v3 + v5
     ev1, v1 = ev0 + ev1 + ev3, v0 + v3 + v1
     ev2, v2 = model_search(ctx, max(10, n // 4))
     return {"evaluations": ev1 + ev2, "violations": (v1 + v2)[:8],
